@@ -54,6 +54,7 @@ func vRunSpawned() int
 func vSpawnCount() int
 func vSendCount() int
 func vLocksHeldNow() int
+func vDistinctRandom()
 func vObserveInt(name string, x int)
 func vObserveBool(name string, x bool)
 func vObserveBytes(name string, b []byte)
@@ -160,6 +161,7 @@ func vRunSpawned() int  { return 0 }
 func vSpawnCount() int  { return 0 }
 func vSendCount() int   { return 0 }
 func vLocksHeldNow() int { return 0 }
+func vDistinctRandom()    {}
 func vObsKey(name string) string {
 	k := vObsCounts[name]
 	vObsCounts[name] = k + 1
